@@ -167,13 +167,13 @@ REGISTRY["C15"] = {
 
 RT = ["lib/src/router/mod.rs"]
 REGISTRY["C04"] = {
-    "technique": "bounded model checking (Kani/CBMC, SAT) of rule identity, match contracts and the path/method selection kernel of Router::lookup",
+    "technique": "bounded model checking (Kani/CBMC, SAT) of rule identity, match contracts and the path/method selection kernel of Router::lookup; symbolic execution of the MIR of TrieNode::lookup_with_path and Router::{add,remove}_{pre,post}_rule into SMT (z3 + cvc5) for host precedence per trie node and order stability of the pre/post lists",
     "level_text": "CBMC decides, for all PREFIX/EQUALS path rules over 1..2 symbolic ASCII bytes, method classes {any, GET, POST}, exact/wildcard/any host rules and all probe paths of 0..3 bytes, that rule equality is exactly kind+string (the identity add/remove use), that the match functions honour their contracts, and that select_tree_rule returns the rule of greatest documented precedence (EQUALS > longest PREFIX, method-specific > method-agnostic) for both insertion orders of two rules. Bounded, not a proof.",
-    "level_note": "Regex rules (regex crate) and the host trie (std HashMap) are outside CBMC's reach: host precedence exact > wildcard > regex, trie pruning and cross-host independence are not decided. Strings are <= 2 bytes, leaves hold 2 rules.",
+    "level_note": "Regex rules (regex crate) and the host trie (std HashMap) are outside CBMC's reach. Engine M decides host precedence for one node of the trie walk (exact child, else the wildcard whenever it applies with no regex sibling consulted, else regex siblings in list order; recursion, map lookup and regex matching uninterpreted) and that the pre/post rule lists are only mutated by order-preserving Vec operations at the looked-up position. Trie pruning on removal and cross-host independence over whole tries are not decided. Strings are <= 2 bytes, leaves hold 2 rules.",
     "rule": "C04: one harness per identity relation / match contract / pair-of-rules selection.",
     "trusted_base": [],
     "assumptions": ["a leaf never holds two rules with the same (path, method) identity (add_tree_rule de-duplicates; proven sound by c04_path_rule_identity)"],
-    "residual": "host trie (pattern_trie.rs: HashMap children, regex leaves): exact > wildcard > regex host precedence, pruning on removal, unrelated add/remove never changes a route; REGEX path rules; pre/post list order (Vec scan, reached only through Router which owns the trie); leaves with more than 2 rules.",
+    "residual": "host trie as a data structure (pattern_trie.rs: insertion, pruning on removal, unrelated add/remove never changes a route; REGEX path rules; pre/post list order (Vec scan, reached only through Router which owns the trie); leaves with more than 2 rules.",
     "obligations": [
         K("c04::c04_path_rule_identity", "two PREFIX/EQUALS rules over 2 symbolic ASCII bytes each; unwind 5",
           "== is reflexive (on clones), symmetric, and a == b <=> same kind and same string", RT, min_covers=2),
@@ -187,6 +187,8 @@ REGISTRY["C04"] = {
         K("c04::c04_selection_order_independent_2_2", "two rules (kind, 2-byte string, method class symbolic), probe path 0..3 bytes, method GET; unwind 6",
           "select_tree_rule([r1,r2]) == select_tree_rule([r2,r1]) == the rule with the greatest (EQUALS>PREFIX, length, method-specific) key", RT, min_covers=3),
         K("c04::c04_selection_order_independent_1_2", "same with a 1-byte and a 2-byte rule (nested prefixes)", "same", RT, min_covers=3),
+        M("c04_trie_node_precedence", "whole TrieNode::lookup_with_path (60 blocks), regex loop unrolled 2x; children.get, Regex::is_match and the recursive call uninterpreted", "exact child => the walk continues there and nothing else is consulted; no child and (prefix exhausted, wildcard present, wildcards accepted) => no regex sibling is consulted and no regex subtree entered; regex siblings in list order, recursion only after a match", ["lib/src/router/pattern_trie.rs"], prop="c04", which="trie"),
+        M("c04_pre_post_lists_keep_order", "Router::add_pre_rule / add_post_rule / remove_pre_rule / remove_post_rule, loops unrolled 2x", "every call handed &mut self.pre / &mut self.post is an order-preserving Vec operation; add pushes at the end; remove is Vec::remove at the index position() returned, only when it returned Some", RT, prop="c04", which="prepost"),
     ],
 }
 
@@ -219,7 +221,7 @@ REGISTRY["C14"] = {
 REGISTRY["C01"] = {
     "technique": "bounded model checking (Kani/CBMC, SAT) of the byte-conservation kernels: DATA split, frame header codec, DATA unpadding, Readiness wake-up algebra; symbolic execution of the MIR of ConnectionH2::handle_data_frame into SMT (z3 + cvc5) for the receive-side buffer accounting",
     "level_text": "CBMC decides that the kernels every proxied body byte passes through conserve bytes: the converter's DATA split partitions a chunk into emitted part + pushed-back remainder, adjacent, in order, nothing duplicated (all windows/frame sizes/lengths); the 9-byte frame header codec is a bijection (all headers); DATA frame parsing returns exactly payload minus padding (all flags/lengths, 0..20 bytes); arm_writable/signal_pending_write always leave the session runnable for write (all 8-bit readiness states). Kernel level only.",
-    "level_note": "Receive side: engine M decides over handle_data_frame's real MIR that the payload slice is rebased on the buffer head from before the advance, that the head then advances by exactly the wire payload length (padding skipped, never replayed as body) and that flow-control credit counts wire bytes. Nothing here runs a Mux/ConnectionH2/Pipe with sockets: finalize_write, delay_close_for_frontend_flush, rustls write paths, socket partial-write loops, stream interleaving and kawa's H1 parser are outside the claim (heap-rich I/O state machines CBMC cannot hold).",
+    "level_note": "Receive side: engine M decides over handle_data_frame's real MIR that the payload slice is rebased on the buffer head from before the advance, that the head then advances by exactly the wire payload length (padding skipped, never replayed as body) and that flow-control credit counts wire bytes; and over Mux::ready that one pass of the event loop with an idle client cannot be a no-op that keeps the loop alive (the state that burns the iteration budget and closes the session mid-response). Nothing else here runs a Mux/ConnectionH2/Pipe with sockets: finalize_write, delay_close_for_frontend_flush, rustls write paths, socket partial-write loops, stream interleaving and kawa's H1 parser are outside the claim (heap-rich I/O state machines CBMC cannot hold).",
     "rule": "C01: one harness per kernel.",
     "trusted_base": ["tracing (used by loona-hpack) switched off by three Kani stubs"],
     "assumptions": ["max_frame_size in [16384, 2^24-1]", "Readiness words carry only the four known bits (check_invariants)"],
@@ -234,6 +236,7 @@ REGISTRY["C01"] = {
         K("c14::c01_readiness_never_loses_writable", "all (event, interest) over the 4 known bits; unwind 3",
           "after arm_writable the filtered readiness contains WRITABLE; signal_pending_write sets only the event bit; no other bit changes", ["lib/src/lib.rs"], min_covers=2),
         M("c01_h2_data_rx_buffer_accounting", "whole ConnectionH2::handle_data_frame (112 blocks); payload slice, wire length, head symbolic; lookups / resets / content-length bookkeeping uninterpreted", "slice.start := payload.start + old head; head := old head + wire_payload_len; both on exactly the append paths, with a chunk queued; received_bytes_since_update grows by the wire length", ["lib/src/protocol/mux/h2.rs"], prop="c01", which="data_rx"),
+        M("c01_ready_no_silent_spin", "whole Mux::ready (370 blocks), every loop unrolled once (one full pass of the inner event loop, up to 2 backends), Ready/Readiness bit algebra modelled exactly, handlers uninterpreted", "with the client idle (filtered frontend readiness empty) a pass of the inner loop either runs a connection handler or leaves the loop: no state lets it repeat unchanged until MAX_LOOP_ITERATIONS closes the session with the response still buffered", ["lib/src/protocol/mux/mod.rs", "lib/src/lib.rs", "command/src/ready.rs"], prop="c01", which="ready_spin"),
     ],
 }
 
